@@ -1301,10 +1301,27 @@ def rule_pb_setitem_clear(ctx):
         r.unknown(fi.site(), 'buffer adjoint (first element of out) not found')
         return r
 
+    # a local that names the overwritten region once (`ybar_sl = ybar[sl]`) stands for it
+    region = set()
+    for st in walk_no_nested(fi.node):
+        if isinstance(st, ast.Assign) and len(st.targets) == 1 and isinstance(st.targets[0], ast.Name) and isinstance(st.value, ast.Subscript) \
+                and isinstance(st.value.value, ast.Name) and st.value.value.id == ybar and norm(st.value.slice) == sl:
+            nm_ = st.targets[0].id
+            if sum(1 for x in ast.walk(fi.node) if isinstance(x, ast.Name) and x.id == nm_ and isinstance(x.ctx, ast.Store)) == 1:
+                region.add(nm_)
+
+    def is_region(n):
+        return (isinstance(n, ast.Subscript) and isinstance(n.value, ast.Name) and n.value.id == ybar and norm(n.slice) == sl) \
+            or (isinstance(n, ast.Name) and n.id in region)
+
     def clears(st):
         if not isinstance(st, ast.Assign) or not (isinstance(st.value, ast.Constant) and st.value.value == 0 and st.value.value is not False):
             return False
         t = st.targets[0]
+        if isinstance(t, ast.Name):
+            return False
+        if any(is_region(n) for n in ast.walk(t)):
+            return True
         # ybar[sl] = 0 | ybar[sl].data[...] = 0 | ybar.data[(slice(None), slice(None)) + sl] = 0
         for n in ast.walk(t):
             if isinstance(n, ast.Subscript) and isinstance(n.value, ast.Name) and n.value.id == ybar and norm(n.slice) == sl:
@@ -1321,7 +1338,7 @@ def rule_pb_setitem_clear(ctx):
     def accumulates(st):
         # xbar += ybar[sl]
         return isinstance(st, ast.AugAssign) and isinstance(st.op, ast.Add) and isinstance(st.target, ast.Name) and st.target.id == xbar \
-            and any(isinstance(n, ast.Subscript) and isinstance(n.value, ast.Name) and n.value.id == ybar and norm(n.slice) == sl for n in ast.walk(st.value))
+            and any(is_region(n) for n in ast.walk(st.value))
 
     n_paths = 0
     for path in _paths(fi.node.body):
@@ -2097,6 +2114,13 @@ def rule_setitem_order(ctx):
         call = next(c for c in ast.walk(stmts[op_at]) if isinstance(c, ast.Call) and isinstance(c.func, ast.Name) and c.func.id == opname)
         passed = {x.id for a in call.args for x in ast.walk(a) if isinstance(x, ast.Name)}
         argvals &= passed
+        # locals that hold (part of) the argument values: `buf = args[0]`
+        for _ in range(3):
+            for s2 in walk_no_nested(fi.node):
+                if isinstance(s2, ast.Assign) and len(s2.targets) == 1 and isinstance(s2.targets[0], ast.Name) and s2.targets[0].id not in vp \
+                        and s2.targets[0].id != 'setitem' and isinstance(s2.value, (ast.Name, ast.Subscript, ast.Attribute)) \
+                        and any(isinstance(x, ast.Name) and x.id in argvals for x in ast.walk(s2.value)):
+                    argvals.add(s2.targets[0].id)
         for k, s_ in enumerate(stmts):
             if not (isinstance(s_, ast.Assign) and any(isinstance(t, ast.Name) and t.id == 'setitem' for t in s_.targets)):
                 continue
